@@ -230,9 +230,15 @@ def ob_copy(a):
     nq, length, vanilla = a
     name = f"C14.copy.post[{nq}q,{length} gates,vanilla={vanilla}]"
     from qlasskit.qcircuit import QCircuit
-    for ws in wire_lists(nq, length, 2 if length <= 2 else 1):
+    for ws, naming in itertools.product(list(wire_lists(nq, length, 2 if length <= 2 else 1)), ("two names for the top qubit", "top qubit unnamed", "no names at all")):
         A = mk_circuit(nq, ws)
-        A.qubit_map["name"] = nq - 1
+        if naming == "two names for the top qubit":
+            A.qubit_map["name"] = nq - 1
+        elif naming == "top qubit unnamed":          # the number of qubits is num_qubits, not what the names happen to mention
+            for k_ in [k_ for k_, v_ in A.qubit_map.items() if v_ == nq - 1]:
+                del A.qubit_map[k_]
+        else:
+            A.qubit_map.clear()
         sa = snapshot(A)
         p = run_hooked(QCircuit.copy, A, vanilla)
         ok = p.kind == "return"
